@@ -225,6 +225,43 @@ template<class T> static bool apply_op2(Queue<T> & qa, Ideal & ia, Queue<T> & qb
    return true;
 }
 
+// ---- result oracle: what the operation must answer, computed from the ideal sequence(s) BEFORE the operation
+// (independent of the Coq model); "" = this operation has no result that could be wrong
+static std::string jn(const char * pfx, const Ideal & v) {std::ostringstream o; o << pfx; for (size_t i=0; i<v.size(); i++) {if (i) o << ","; o << v[i];} return o.str();}
+static std::string num(const char * pfx, long n) {std::ostringstream o; o << pfx << n; return o.str();}
+static long countOf(const Ideal & v, int x) {long c = 0; for (size_t i=0; i<v.size(); i++) if (v[i] == x) c++; return c;}
+static std::string expected_result(const Ideal & v, const Ideal & w, const std::string & ops)
+{
+   // v = the ideal sequence of [this] queue, w = of the other one (two-queue operations)
+   std::vector<std::string> a = split(ops, ':');
+   const std::string & c = a[0];
+   const size_t sz = v.size();
+   if ((c=="at")||(c=="ah")||(c=="ia")||(c=="atm")||(c=="ahm")||(c=="iia")||(c=="cf")||(c=="es")||(c=="stf")||(c=="eca")||(c=="cq")||(c=="atq")||(c=="ahq")||(c=="iiq")) return "ok";
+   if ((c=="cl")||(c=="sw")||(c=="rv")||(c=="nm")||(c=="so")||(c=="rpa")||(c=="sc")||(c=="pl")||(c=="as")) return "-";
+   if (c=="rh") return sz ? num("v", v[0]) : "none";
+   if (c=="rt") return sz ? num("v", v[sz-1]) : "none";
+   if ((c=="ra")||(c=="g")) return (U(1) < sz) ? num("v", v[U(1)]) : "none";
+   if (c=="rp") return (U(1) < sz) ? "ok" : "err";
+   if ((c=="rhm")||(c=="rtm")) return num("n", (long)std::min((size_t)U(1), sz));
+   if (c=="io") {if (U(2) < sz) {size_t e = std::min((size_t)U(3), sz); for (size_t i=U(2); i<e; i++) if (v[i] == I(1)) return num("i", (long)i);} return "i-1";}
+   if (c=="lo") {if (U(3) < sz) {size_t s0 = std::min((size_t)U(2), sz-1); for (long i=(long)s0; i>=(long)U(3); i--) if (v[(size_t)i] == I(1)) return num("i", i);} return "i-1";}
+   if ((c=="rfi")||(c=="rli")) return countOf(v, I(1)) ? "ok" : "err";
+   if (c=="rai") return num("n", countOf(v, I(1)));
+   if (c=="it") {Ideal r; uint32 idx = U(1); const uint32 d = (uint32)I(2); for (size_t g=0; (g<=sz)&&(idx<sz); g++) {r.push_back(v[idx]); idx += d;} return jn("l", r);}
+   if ((c=="rsd")||(c=="rd")) {Ideal t = v; if (c=="rd") std::stable_sort(t.begin(), t.end()); long kept = 0; for (size_t i=0; i<t.size(); i++) if ((i==0)||(t[i] != t[i-1])) kept++; return num("n", (long)sz-kept);}
+   if (c=="isp") {size_t p = 0; if ((sz)&&(v[0] <= I(1))) {for (size_t i=sz; i>0; i--) if (v[i-1] <= I(1)) {p = i; break;}} return num("i", (long)p);}
+   if ((c=="atr")||(c=="ahr")) return (U(1) < sz) ? "ok" : "err";
+   if (c=="iar") return (U(2) < sz) ? "ok" : "err";
+   if (c=="rpr") return ((U(1) < sz)&&(U(2) < sz)) ? "ok" : "err";
+   if (c=="rar") return (U(1) < sz) ? num("n", countOf(v, v[U(1)])) : "n0";
+   if (c=="gap") return jn("l", v);
+   if (c=="eq") return (v == w) ? "ok" : "err";
+   if (c=="cmp") return num("v", (v < w) ? -1 : ((w < v) ? 1 : 0));      // std::vector compares lexicographically
+   if (c=="stw") return ((w.size() <= sz)&&(std::equal(w.begin(), w.end(), v.begin()))) ? "ok" : "err";
+   if (c=="enw") return ((w.size() <= sz)&&(std::equal(w.begin(), w.end(), v.begin()+(sz-w.size())))) ? "ok" : "err";
+   return "";
+}
+
 // ---- property oracle, evaluated on the implementation after every operation
 template<class T> static bool oracle(int k, const char * name, const Queue<T> & q, const Ideal & ideal, bool owning, size_t n, const std::string & c, std::ostringstream & orc)
 {
@@ -275,13 +312,25 @@ template<class T> static bool run_case(int k, const std::string & body, bool own
          if (ops[n].empty()) continue;
          std::string c = split(ops[n], ':')[0];
          bool ok;
-         if ((two)&&(ops[n].compare(0, 2, "b.") == 0)) ok = apply_op(qb, ib, ops[n].substr(2), o);
+         std::ostringstream res;    // the operation's answer
+         std::string want;          // what the ideal sequence(s) say it must be
+         if ((two)&&(ops[n].compare(0, 2, "b.") == 0)) {want = expected_result(ib, ia, ops[n].substr(2)); ok = apply_op(qb, ib, ops[n].substr(2), res);}
          else
          {
-            ok = apply_op(qa, ia, ops[n], o);
-            if ((!ok)&&(two)) ok = apply_op2(qa, ia, qb, ib, ops[n], o);
+            const std::vector<std::string> aa = split(ops[n], ':');
+            const bool thisIsB = (two)&&(aa.size() > 1)&&(aa[1] == "1")&&((c=="sc")||(c=="pl")||(c=="cq")||(c=="as")||(c=="stw")||(c=="enw")||(c=="cmp")||(c=="atq")||(c=="ahq")||(c=="iiq"));
+            want = thisIsB ? expected_result(ib, ia, ops[n]) : expected_result(ia, ib, ops[n]);
+            ok = apply_op(qa, ia, ops[n], res);
+            if ((!ok)&&(two)) ok = apply_op2(qa, ia, qb, ib, ops[n], res);
          }
          if (!ok) {fprintf(stderr, "bad op [%s]\n", ops[n].c_str()); exit(2);}
+         o << res.str();
+         if ((!want.empty())&&(want != res.str()))
+         {
+            orc << k << " ORACLE FAIL result of op#" << n << " " << c << " differs from the ideal sequence's (kind " << (owning?"owning":"trivial") << ")\n";
+            o << " "; show_state(o, qa, owning); if (two) {o << "|"; show_state(o, qb, owning);} o << ";";
+            break;
+         }
          o << " ";
          show_state(o, qa, owning);
          if (two) {o << "|"; show_state(o, qb, owning);}
